@@ -478,6 +478,7 @@ def make_builtins(interp: Any) -> Dict[str, Any]:
         "hasattr": B("hasattr", b_hasattr),
         "setattr": B("setattr", b_setattr),
         "callable": B("callable", b_callable),
+        "vars": B("vars", lambda it, a, k: get_attribute(it, a[0], "__dict__")),
         "type": B("type", b_type),
         "zip": B("zip", b_zip),
         "map": B("map", b_map),
